@@ -190,14 +190,10 @@ func (t *Typedef) resolve(d *typeDictionary) []error {
 // resolve resolves Type t, as well as the underlying typedef for t.  If t
 // cannot be resolved then one or more errors are returned.
 func (t *Type) resolve(d *typeDictionary) (errs []error) {
-	if t.YangType != nil {
-		return t.resolveErrs
+	if t.YangType != nil && !t.resolveFailed {
+		return nil
 	}
-	defer func() {
-		if t.YangType != nil {
-			t.resolveErrs = errs
-		}
-	}()
+	defer func() { t.resolveFailed = len(errs) > 0 }()
 
 	// If t.Name is a base type then td will not be nil, otherwise
 	// td will be nil and of type *Typedef.
